@@ -76,6 +76,13 @@ Proof.
   intro V. apply verify_digest_spec. unfold dig_consistent. destruct c; cbn; auto.
 Qed.
 
+Lemma take_n_all (l : str) : forall n, len l <= n -> take_n l n = l.
+Proof.
+  induction l as [|x l IH]; intros n Hn; [reflexivity|]. cbn [take_n].
+  unfold len in *. cbn [length] in Hn.
+  destruct (n =? 0) eqn:E; [apply N.eqb_eq in E; lia|]. f_equal. apply IH. lia.
+Qed.
+
 Section Refine.
   Variable H : str -> str.
   Variable parse_mt : str -> option str.
@@ -105,7 +112,7 @@ Section Refine.
   Lemma gen_desc_honest mt n (c : bool) d ar body rf hd :
     parse_mt mt = Some mt -> valid_digest d = true ->
     (rf = d \/ valid_digest rf = false) ->
-    (c = true \/ (hd = true /\ rf = d) \/ (hd = false /\ H body = d /\ len body <= limit)) ->
+    (c = true \/ (hd = true /\ rf = d) \/ (hd = false /\ H body = d /\ len body <= limit /\ n <= limit)) ->
     gen_desc H parse_mt limit (mkResp 200 (Some mt) (Some n) (opt_if c d) None ar None [] body) rf hd
     = Some (mkDesc mt d n).
   Proof.
@@ -118,10 +125,11 @@ Section Refine.
       destruct Hrf as [->|Vr].
       + rewrite Vd, str_eqb_refl. reflexivity.
       + rewrite Vr. reflexivity.
-    - destruct Hc as [X|[[-> ->]|(-> & Hb & Hl)]]; [discriminate| |].
+    - destruct Hc as [X|[[-> ->]|(-> & Hb & Hl & Hn)]]; [discriminate| |].
       + rewrite Vd, str_eqb_refl. reflexivity.
-      + assert (El : (limit <? len body) = false) by (apply N.ltb_ge; exact Hl).
-        rewrite El, Hb. destruct Hrf as [->|Vr].
+      + assert (El : (limit <? n) = false) by (apply N.ltb_ge; exact Hn).
+        rewrite El. unfold hashed_body. proj. rewrite take_n_all by exact Hl.
+        rewrite Hb. destruct Hrf as [->|Vr].
         * rewrite Vd, str_eqb_refl. reflexivity.
         * rewrite Vr. reflexivity.
   Qed.
@@ -317,9 +325,17 @@ Section Refine.
     unfold man_fetchref. rewrite ER, hx_get_man, (man_resp_hit false g rf d mt c L).
     simp. rewrite orb_false_r.
     destruct (p_clen p) eqn:Ec; cbn [opt_if].
-    - rewrite gen_desc_honest; eauto.
+    - rewrite gen_desc_honest.
+      + assert (Eb : match nstr (opt_if (p_dighdr p) d) with
+                     | [] => hashed_body limit (mkResp 200 (Some mt) (Some (len c)) (opt_if (p_dighdr p) d) None false None [] c)
+                     | _ => c end = c).
+        { destruct (nstr (opt_if (p_dighdr p) d)); auto. unfold hashed_body. proj.
+          apply take_n_all. exact Hlim. }
+        rewrite Eb. eauto.
+      + exact Pm.
       + subst d. apply Hvalid.
       + destruct (valid_digest rf) eqn:V; auto. left. symmetry. auto.
+      + destruct (p_dighdr p); auto. right. right. auto.
     - destruct Hd as [X|Hd]; [discriminate|].
       destruct (man_resolve_hit g (n + 1) rs rf d mt c Hi ER L Hd) as [t E]. rewrite E.
       cbn [d_dg]. rewrite vd_opt by (subst d; apply Hvalid). eauto.
